@@ -52,7 +52,7 @@ func streamByte(i int) byte { return byte(i*37 + 11) }
 func (r *scriptedReader) Read(p []byte) (int, error) {
 	r.reads++
 	r.requested += len(p)
-	if r.reads > 10000 {
+	if r.reads > 10000 || len(p) > 1<<20 {
 		return 0, errors.New("verif: read budget exhausted (harness horizon)")
 	}
 	if r.stuck != nil {
